@@ -1,5 +1,5 @@
 import MesaModel.Gen.FnCells
-import MesaModel.Model.CellGeometry
+import MesaModel.Proofs.CellConnect
 /-!
 Equivalence of the definitions GENERATED from mesa/discrete_space/grid.py (`Gen/FnCells.lean`, rewritten by
 `harness/py2lean.py` on every check) with the hand-written model `Model/CellGeometry.lean` (C07).
@@ -64,3 +64,83 @@ theorem C07_gen_connect_single_cell_nd_eq_model (dims : List Nat) (_hpos : ∀ w
     cases torus <;>
       simp [connectNd, addv, wrapv, inb, map_zip_eq_zipWith, all_zip_eq_zipWith, List.zipWith_map_right,
         Int.fmod_eq_emod_of_nonneg] <;> split <;> simp_all
+
+/-! ### the n-D offset tables (`_connect_cells_nd` of the Moore and von Neumann grids) -/
+
+/-- a loop that appends a list per iteration is a `flatMap` -/
+theorem foldl_emit_many {α β : Type} (g : List β → α → List β) (f : α → List β)
+    (hg : ∀ acc x, g acc x = acc ++ f x) (acc : List β) (l : List α) :
+    l.foldl g acc = acc ++ l.flatMap f := by
+  induction l generalizing acc with
+  | nil => simp
+  | cons x xs ih => rw [List.foldl_cons, ih, hg, List.flatMap_cons, List.append_assoc]
+
+theorem pyRange_zero (n : Nat) : Py.range 0 (n : Int) = (List.range n).map fun (i : Nat) => (i : Int) := by
+  simp [Py.range]
+
+theorem productRepeat_eq_prod3 (n : Nat) : Py.productRepeat [(-1 : Int), 0, 1] n = prod3 n := by
+  induction n with
+  | zero => rfl
+  | succ n ih => simp [Py.productRepeat, prod3, ih]
+
+/-- `OrthogonalMooreGrid._connect_cells_nd` as generated: every cell is connected with the model's `mooreOffsets n`. -/
+theorem C07_gen_moore_connect_cells_nd_eq_model (dims : List Int) (cells : List GenFn.CellNd) :
+    GenFn.moore_connect_cells_nd ⟨dims, cells⟩ = cells.map fun c => (c, mooreOffsets dims.length) := by
+  unfold GenFn.moore_connect_cells_nd
+  simp only []
+  rw [foldl_emit (f := fun c => some (c, mooreOffsets dims.length))]
+  · simp
+  · intro acc c
+    simp [mooreOffsets, zeroVec, productRepeat_eq_prod3]
+
+/-- `OrthogonalVonNeumannGrid._connect_cells_nd` as generated: every cell is connected with the model's `vnOffsets n`. -/
+theorem C07_gen_vn_connect_cells_nd_eq_model (dims : List Int) (cells : List GenFn.CellNd) :
+    GenFn.vn_connect_cells_nd ⟨dims, cells⟩ = cells.map fun c => (c, vnOffsets dims.length) := by
+  unfold GenFn.vn_connect_cells_nd
+  simp only []
+  rw [foldl_emit_many (f := fun (dim : Int) => [unitVec dims.length dim.toNat (-1), unitVec dims.length dim.toNat 1])]
+  · rw [foldl_emit (f := fun c => some (c, vnOffsets dims.length))]
+    · simp
+    · intro acc c
+      simp [vnOffsets, pyRange_zero, List.flatMap_map]
+  · intro acc dim
+    simp [unitVec, zeroVec]
+
+/-! ### property statements of C07 directly over the generated (code-derived) definitions -/
+
+/-- C07 connection clause about the code-derived text: the `connect` calls `Grid._connect_single_cell_nd` makes for the
+    cell `c` are exactly `(c', key)` with `key` one of the offsets and `c' = c + key` (wrapped component-wise on a
+    torus) in bounds. -/
+theorem C07_connect_spec_generated {dims : List Nat} (hpos : ∀ w ∈ dims, 0 < w) {torus : Bool} {c : List Int}
+    (hc : c.length = dims.length) (offsets : List (List Int)) (hoff : ∀ d ∈ offsets, d.length = dims.length)
+    (key c' : List Int) :
+    (c', key) ∈ GenFn.connect_single_cell_nd ⟨dims.map fun (w : Nat) => (w : Int), torus⟩ ⟨c⟩ offsets ↔
+      key ∈ offsets ∧ c' = (if torus then wrapv (addv c key) dims else addv c key) ∧ InB c' dims := by
+  rw [C07_gen_connect_single_cell_nd_eq_model dims hpos, List.mem_filterMap]
+  constructor
+  · rintro ⟨d, hd, h⟩
+    cases hcn : connectNd dims torus c d with
+    | none => simp [hcn] at h
+    | some n =>
+      simp only [hcn, Option.map_some, Option.some.injEq, Prod.mk.injEq] at h
+      obtain ⟨rfl, rfl⟩ := h
+      exact ⟨hd, (connectNd_spec hc (hoff _ hd)).mp hcn⟩
+  · rintro ⟨hk, h⟩
+    exact ⟨key, hk, by rw [(connectNd_spec hc (hoff _ hk)).mpr h]; rfl⟩
+
+/-- C07 offsets clause about the code-derived text: the table `OrthogonalMooreGrid._connect_cells_nd` hands to every
+    cell is exactly the set of vectors of Chebyshev norm 1, each once; the von Neumann one is the vectors of Manhattan
+    norm 1. -/
+theorem C07_offsets_spec_generated (dims : List Int) (cells : List GenFn.CellNd) (c : GenFn.CellNd) (offs : List (List Int))
+    (d : List Int) :
+    ((c, offs) ∈ GenFn.moore_connect_cells_nd ⟨dims, cells⟩ →
+      (d ∈ offs ↔ d.length = dims.length ∧ chebNorm d = 1) ∧ offs.Nodup) ∧
+    ((c, offs) ∈ GenFn.vn_connect_cells_nd ⟨dims, cells⟩ →
+      (d ∈ offs ↔ d.length = dims.length ∧ manhNorm d = 1)) := by
+  rw [C07_gen_moore_connect_cells_nd_eq_model, C07_gen_vn_connect_cells_nd_eq_model]
+  simp only [List.mem_map, Prod.mk.injEq]
+  constructor
+  · rintro ⟨_, _, _, rfl⟩
+    exact ⟨mem_mooreOffsets_norm _ d, mooreOffsets_nodup _⟩
+  · rintro ⟨_, _, _, rfl⟩
+    exact mem_vnOffsets_norm _ d
